@@ -20,6 +20,8 @@ import json
 import math
 import os
 import random
+import subprocess
+import time
 from concurrent.futures import ThreadPoolExecutor
 
 from harness import common, tlc
@@ -703,12 +705,119 @@ def run_tlc_jobs(tier, parts):
     return {k: f.result() for k, f in jobs.items()}
 
 
+# ------------------------------------------------------------------------------------------------------------
+# unbounded stage (thorough only): Apalache proves IndInv of HexSpiral inductive, i.e. the closed forms of HexCore
+# (the operators TLC evaluates in HexLattice_mc and the replay binds to the real code) agree with the walk around
+# the rings for EVERY ring.  Not finishing (timeout / OOM / tool missing) is recorded as "not completed" and is
+# neither a violation nor a machinery failure.
+# ------------------------------------------------------------------------------------------------------------
+APALACHE_TIMEOUT = 600
+APALACHE_JOBS = [
+    ("base", "Init => IndInv", ["--init=Init", "--inv=IndInv", "--length=0"]),
+    ("step", "IndInv /\\ Next => IndInv'", ["--init=IndInit", "--inv=IndInv", "--length=1"]),
+    ("progress", "IndInv => the closed-form successor is a SpiralStep (the walk never sticks)",
+     ["--init=IndInit", "--inv=Progress", "--length=0"]),
+]
+
+
+def _itf_int(v):
+    return int(v["#bigint"]) if isinstance(v, dict) else int(v)
+
+
+def run_apalache():
+    wd = common.workdir("apalache")
+    tlc.stage(MODDIR, wd)
+    out = []
+    for name, claim, args in APALACHE_JOBS:
+        odir = os.path.join(wd, "out-" + name)
+        cmd = ["timeout", str(APALACHE_TIMEOUT), "apalache-mc", "check"] + args + ["--out-dir=" + odir, "HexSpiral_apa.tla"]
+        shown = "apalache-mc check %s HexSpiral_apa.tla   (in spec/grid, under timeout %d)" % (" ".join(args), APALACHE_TIMEOUT)
+        t0 = time.time()
+        try:
+            p = subprocess.run(cmd, cwd=wd, stdout=subprocess.PIPE, stderr=subprocess.STDOUT, timeout=APALACHE_TIMEOUT + 60)
+            text, rc = p.stdout.decode("utf-8", "replace"), p.returncode
+        except (OSError, subprocess.TimeoutExpired) as ex:
+            text, rc = "%s: %s" % (type(ex).__name__, ex), -1
+        r = {"name": name, "claim": claim, "command": shown, "rc": rc, "wall_s": round(time.time() - t0, 1)}
+        if rc == 0 and "The outcome is: NoError" in text:
+            r["outcome"] = "proved"
+        elif "The outcome is: Error" in text and "invariant" in text and "violated" in text:
+            r["outcome"] = "counterexample"
+            r["states"] = []
+            for root, _, files in os.walk(odir):
+                for f in files:
+                    if f.endswith("violation1.itf.json") and not r["states"]:
+                        with open(os.path.join(root, f)) as fh:
+                            itf = json.load(fh)
+                        r["states"] = [{k: _itf_int(st[k]) for k in ("ring", "pos", "ci", "cj")} for st in itf["states"]]
+        else:
+            r["outcome"] = "not completed"
+            r["tail"] = "\n".join(text.splitlines()[-6:])[-1200:]
+        out.append(r)
+    return out
+
+
+def _real_agrees_with_walk_state(st):
+    """does the REAL code relate (ring,pos) and (ci,cj) of this state to each other?"""
+    armi_ready()
+    from armi.reactor import grids
+
+    H = grids.HexGrid
+    a = call(H.getIndicesFromRingAndPos, st["ring"], st["pos"])
+    b = call(H.indicesToRingPos, st["ci"], st["cj"])
+    return (not isinstance(a, str) and tuple(ints(a)) == (st["ci"], st["cj"])
+            and not isinstance(b, str) and tuple(ints(b)) == (st["ring"], st["pos"])
+            and 1 <= st["pos"] <= H.getPositionsInRing(st["ring"]))
+
+
+def report_apalache(rep, results):
+    rep.extra["proof"] = {
+        "apalache:IndInv": {
+            "module": "spec/grid/HexSpiral_apa.tla (EXTENDS HexSpiral EXTENDS HexCore; HexLattice EXTENDS HexCore)",
+            "claim": "for every ring: CodeFromRingPos(ring,pos) = (i,j) without raising, CodeRingPos(i,j) = (ring,pos), "
+                     "1 <= pos <= CodeNumInRing(ring), ring = max(|i|,|j|,|i+j|)+1 along the counter-clockwise walk",
+            "outcome": ("proved (inductive invariant: base + step; progress: %s)" % results[2]["outcome"])
+            if results[0]["outcome"] == results[1]["outcome"] == "proved"
+            else "counterexample" if any(r["outcome"] == "counterexample" for r in results[:2]) else "not completed",
+            "runs": results,
+        }
+    }
+    for r in results:
+        if r["outcome"] != "counterexample":
+            continue
+        sts = r.get("states") or []
+        # the step counterexample is <pre-state, post-state>: a genuine disagreement of armi iff the real code relates
+        # the pre-state's numbers (it is a legitimate state of the walk) but not the post-state's
+        if r["name"] == "step" and len(sts) >= 2 and _real_agrees_with_walk_state(sts[-2]) \
+                and not _real_agrees_with_walk_state(sts[-1]):
+            rep.violation("apalache:IndInv:step", "Apalache: the hex ring/position arithmetic leaves the walk at %r -> %r "
+                          "and the real code agrees with the closed forms there" % (sts[-2], sts[-1]),
+                          {"direction": "apalache", "states": sts, "command": r["command"]})
+        else:
+            raise tlc.MachineryError("Apalache counterexample in %s that the real code does not confirm (specification "
+                                     "problem): %r" % (r["name"], sts))
+
+
 def run(rep, tier, seed):
     tier = "thorough" if tier == "thorough" else "quick"
     parts = PARTS[tier]
     for part in parts:
         tlc.sany(ADAPTERS[part].module, MODDIR)
+    tlc.sany("HexSpiral_mc", MODDIR)
+    pool = ThreadPoolExecutor(max_workers=2)
+    apa = pool.submit(run_apalache) if tier == "thorough" else None
+    spiral = pool.submit(tlc.run, "HexSpiral_mc", "HexSpiral_mc.cfg", MODDIR, workers=2, want_prints=False, timeout=3000)
     results = run_tlc_jobs(tier, parts)
+    sres = spiral.result()
+    rep.add_tlc("exhaustive:spiral:HexSpiral_mc.cfg", sres)
+    if sres.violation:
+        rep.violation("tlc:spiral:%s" % sres.violation["name"], "TLC: %s violated in HexSpiral_mc" % sres.violation["name"],
+                      {"direction": "tlc", "trace": sres.violation["trace"][:20000]})
+    if sres.coverage.get("Next", (0, 0))[1] == 0:
+        raise tlc.MachineryError("vacuous (spiral): Next never taken")
+    if apa is not None:
+        report_apalache(rep, apa.result())
+    pool.shutdown()
     rng = random.Random(seed)
     for part in parts:
         ad = ADAPTERS[part]()
